@@ -203,6 +203,13 @@ func VerifC04ExpiredAlias() {
 	vAssume(ok)
 	_, al := vRead("container", "alias", id)
 	vAssert(al != nil && al.(string) == "mycnr.container", "C04/alias-returns-the-name-set")
+	// the alias record was written by the Container contract, whose domain string is a NeoVM Buffer (a
+	// concatenation); the committee, owner of the domain, adds a second TXT record: both are listed, in order
+	// (also registered under C12; the engine does not track Buffer-ness, the VM decides this during the replays)
+	vSign(vAlphabetAcct(), true)
+	okr, _ := vInvoke("nns", "addRecord", "mycnr.container", 16, "second")
+	_, recs := vRead("nns", "getRecords", "mycnr.container", 16)
+	vAssert(okr && len(recs.([]string)) == 2 && recs.([]string)[1] == "second", "C12/getRecords-returns-the-additions-in-order")
 	vAdvanceTime(span)
 	vSign(vAlphabetAcct(), true)
 	done, _ := vInvoke("container", "delete", id, vBytes("sig", 64), []byte{})
@@ -260,4 +267,32 @@ func VerifC04ForeignNNS() {
 	vSign(vAlphabetAcct(), true)
 	again, _ := vInvoke("container", "putNamed", blob2, vBytes("sig", 64), vKey("owner"), []byte{}, "mycnr", "container")
 	vAssert(again, "C04/a-name-can-be-reused-after-deletion")
+}
+
+// C04 with an id that is a PROPER PREFIX of a live container's id (param 0 bytes: 31, 20, 1, 0): it names no
+// container. Every getter reports not found, delete does nothing (no DeleteSuccess, nothing removed, no
+// tombstone that would block anything), setEACL is refused, and the live container is untouched.
+func VerifC04PrefixID() {
+	n := vParam(0)
+	deployFS()
+	vAssume(alphaOn("netmap", "setConfig", []byte("id"), []byte("ContainerFee"), 0))
+	owner := vAcct("owner")
+	blob := cnrBlob("c1", 0, owner)
+	id := vSha256(blob)
+	vSign(vAlphabetAcct(), true)
+	ok, _ := vInvoke("container", "put", blob, vBytes("sig", 64), vKey("owner"), []byte{})
+	vAssume(ok)
+	short := id[:n]
+	okG, _ := vRead("container", "get", short)
+	okO, _ := vRead("container", "owner", short)
+	okE, _ := vRead("container", "eACL", short)
+	vAssert(!okG && !okO && !okE, "C04/getters-report-not-found-for-ids-that-are-not-live")
+	before := vStorageCount("container")
+	vSign(vAlphabetAcct(), true)
+	vInvoke("container", "delete", short, vBytes("sig", 64), []byte{})
+	vAssert(len(vEvents("container", "DeleteSuccess")) == 0 && vStorageCount("container") == before, "C04/delete-of-an-id-that-is-not-live-does-nothing")
+	okG, _ = vRead("container", "get", id)
+	_, cnt := vRead("container", "count")
+	vAssert(okG && cnt.(int) == 1, "C04/delete-of-an-id-that-is-not-live-does-nothing")
+	vCover("prefix-id-tried")
 }
